@@ -16,7 +16,13 @@ IDX0 = 10  # index names in the spec are 10, 11, 12, ...
 
 
 def mc_module(name, pool, lits, zeros, idxpool, opset, maxnodes, maxrank, maxdim, finalops=(), levels=(), replmaps=()):
-    lit_txt = "<<" + ", ".join(f'[nm |-> "{n}", v |-> {to_tla(Cx.of(v))}]' for n, v in lits) + ">>"
+    jets = hasattr(pool, "mode")
+    if jets:
+        from .envs import bd_tla
+
+        lit_txt = "<<" + ", ".join(f'[nm |-> "{n}", v |-> {bd_tla(v)}]' for n, v in lits) + ">>"
+    else:
+        lit_txt = "<<" + ", ".join(f'[nm |-> "{n}", v |-> {to_tla(Cx.of(v))}]' for n, v in lits) + ">>"
     zero_txt = "<<" + ", ".join("<<" + ", ".join(map(str, z)) + ">>" for z in zeros) + ">>"
     return f"""---- MODULE {name} ----
 EXTENDS UFLBuild
@@ -28,6 +34,7 @@ MC_Zeros == {zero_txt}
 MC_IdxPool == <<{", ".join(map(str, idxpool))}>>
 MC_OpSet == {{{", ".join(json.dumps(o) for o in sorted(opset))}}}
 MC_FinalOps == {{{", ".join(json.dumps(o) for o in sorted(finalops))}}}
+MC_EnvDirs == {pool.tla_envdirs() if jets else "<< >>"}
 MC_ReplMaps == <<{", ".join(f"[src |-> {m['src']}, sub |-> <<{', '.join(map(str, m['sub']))}>>]" for m in replmaps)}>>
 MC_OpLevels == <<{", ".join("{" + ", ".join(json.dumps(o) for o in sorted(l)) + "}" for l in levels)}>>
 ====
@@ -39,7 +46,9 @@ def mc_cfg(pool, maxnodes, maxrank, maxdim, final_only=False, mikinds=("fixed", 
         "CONSTANTS",
         "Terminals <- MC_Terminals",
         "TermVal <- MC_TermVal",
-        f"NEnv = {pool.nenv}",
+        f"NEnv = {getattr(pool, 'ntlc', pool.nenv)}",
+        "EnvDirs <- MC_EnvDirs",
+        f"NDir = {getattr(pool, 'ndir', 0)}",
         "Lits <- MC_Lits",
         "Zeros <- MC_Zeros",
         "IdxPool <- MC_IdxPool",
@@ -54,6 +63,10 @@ def mc_cfg(pool, maxnodes, maxrank, maxdim, final_only=False, mikinds=("fixed", 
         f"MaxDim = {maxdim}",
         "SPECIFICATION Spec",
     ]
+    import os as _os
+
+    if _os.environ.get("VERIF_NODUMP"):
+        dump, invariants, props = False, (), ()
     for i in invariants:
         lines.append(f"INVARIANT {i}")
     if dump:
@@ -78,9 +91,19 @@ class World:
         cell = {1: ufl.interval, 2: ufl.triangle, 3: ufl.tetrahedron}[gdim]
         self.mesh = ufl.Mesh(LagrangeElement(cell, 1, (gdim,)))
         self.terms = []
+        opts = getattr(pool, "opts", {})
+        byname = {}
         for name, shape in pool.terminals:
-            V = ufl.FunctionSpace(self.mesh, LagrangeElement(cell, 2, tuple(shape)))
-            self.terms.append(ufl.Coefficient(V))
+            o = opts.get(name, {})
+            if "grad_of" in o:
+                obj = ufl.grad(byname[o["grad_of"]])  # data terminal: the gradient of another terminal
+            else:
+                V = ufl.FunctionSpace(self.mesh, LagrangeElement(cell, 2, tuple(shape)))
+                kind = o.get("kind", "coef")
+                obj = ufl.Coefficient(V) if kind == "coef" else ufl.Argument(V, 0 if kind == "arg0" else 1)
+            byname[name] = obj
+            self.terms.append(obj)
+        self.byname = byname
         self.lits = [ufl.as_ufl(_pynum(v)) for _, v in lits]
         self.zeros = [ufl.zero(*z) if z else ufl.zero() for z in zeros]
         # created in increasing count order so that ufl's ordering of free indices (by count)
@@ -89,9 +112,27 @@ class World:
         self.idxname = {i.count(): n for n, i in self.idx.items()}
         self.init = self.terms + self.lits + self.zeros
         self.envs = []
-        for e in range(pool.nenv):
-            vals = {t: pool.values[e][name] for t, (name, _) in zip(self.terms, pool.terminals)}
-            self.envs.append(TermEnv(vals))
+        mode = getattr(pool, "mode", None)
+        for e in range(getattr(pool, "nbase", pool.nenv) if mode else pool.nenv):
+            vals = {}
+            dvals = {}
+            for t, (name, shape) in zip(self.terms, pool.terminals):
+                o = opts.get(name, {})
+                if "grad_of" in o:
+                    base = byname[o["grad_of"]]
+                    bshape = tuple(shape)[:-1]
+                    for m in range(tuple(shape)[-1]):
+                        dvals[(base, (m,))] = {c: pool.values[e][name][c + (m,)] for c in comps(bshape)}
+                    continue
+                vals[t] = pool.values[e][name]
+                if mode == "spatial":
+                    for m in range(pool.ndir):
+                        dvals[(t, (m,))] = {c: pool.d1[e][name][c + (m,)] for c in comps(shape)}
+                        for n in range(m, pool.ndir):
+                            dvals[(t, (m, n))] = {c: pool.d2[e][name][c + (m, n)] for c in comps(shape)}
+            self.envs.append(TermEnv(vals, dvals))
+        # TLC environment whose values are those of python environment e
+        self.tlc_env = [pool.tlc_env_of_base(e) if mode else e for e in range(len(self.envs))]
         self.cache = {}
         self.guard_inputs = False
         self.replmaps = getattr(pool, "replmaps", [])
@@ -109,6 +150,14 @@ class World:
         if kind == "prod":
             return t[m["img"][1]] * t[m["img"][2]]
         raise MachineryError("unknown image kind " + kind)
+
+    def gateaux_coefficient(self, wname):
+        """The coefficient (or a fixed component u[k], or a tuple) that derivative() differentiates by."""
+        if isinstance(wname, (list, tuple)) and wname and wname[0] == "comp":
+            return self.byname[wname[2]][tuple(wname[1])]
+        if isinstance(wname, (list, tuple)):
+            return tuple(self.byname[n] for n in wname)
+        return self.byname[wname]
 
     def mi(self, mi):
         out = []
@@ -162,6 +211,20 @@ def apply_op(w, op, args, mi):
         return ufl.sign(a)
     if op == "variable":
         return ufl.variable(a)
+    if op in ("grad", "nabla_grad", "div", "nabla_div", "curl"):
+        return getattr(ufl, op)(a)
+    if op == "dx":
+        return a.dx(int(mi[0]))
+    if op in ("gateaux1", "gateaux2"):
+        g = w.pool.gateaux[0 if op == "gateaux1" else 1]
+        cd = None
+        if len(g) > 2 and g[2]:
+            cd = {w.byname[k]: w.byname[v] for k, v in g[2].items()}
+        return ufl.derivative(a, w.gateaux_coefficient(g[0]), w.byname[g[1]], coefficient_derivatives=cd)
+    if op == "seedvar":
+        return ufl.variable(a)
+    if op == "diff":
+        return ufl.diff(a, b)
     if op == "replace":
         m = w.replmaps[mi[0] - 1]
         return ufl.replace(a, {w.terms[m["src"] - 1]: w.image(m)})
@@ -220,6 +283,19 @@ def _renumber(e):
     from ufl.algorithms.renumbering import renumber_indices
 
     return renumber_indices(e)
+
+
+def _expand_derivatives(e):
+    from ufl.algorithms import expand_derivatives
+
+    return expand_derivatives(e)
+
+
+def _apply_derivatives(e):
+    from ufl.algorithms.apply_algebra_lowering import apply_algebra_lowering
+    from ufl.algorithms.apply_derivatives import apply_derivatives
+
+    return apply_derivatives(apply_algebra_lowering(e))
 
 
 def _remove_complex(e):
@@ -302,6 +378,8 @@ PASSES = {
     "remove_ct": _remove_ct,
     "renumber": _renumber,
     "remove_complex": _remove_complex,
+    "expand_derivatives": _expand_derivatives,
+    "apply_derivatives": _apply_derivatives,
     "identity": lambda e: e,
 }
 
@@ -391,6 +469,8 @@ def compare_inner(w, rec):
     objs, err = build(w, prog)
     pred_tabs = rec["val"]
     # is the prediction defined anywhere?
+    if hasattr(w, "tlc_env") and len(pred_tabs) != len(w.envs):
+        pred_tabs = [pred_tabs[k] for k in w.tlc_env]
     any_def = any(from_tla(v) is not None for tab in pred_tabs for _, v in tab)
     if err is not None:
         k, exc = err
